@@ -124,11 +124,14 @@ pub fn base_yaml(bits: u32, servers: u8) -> String {
         s.push_str("  license:\n    name: Apache 2.0\n    url: https://www.apache.org/licenses/LICENSE-2.0.html\n");
     }
     s.push_str("  version: 1.2.3\n");
+    if on(F_XEXT) {
+        s.push_str("  x-audience: internal\n");
+    }
     match servers {
         0 => {}
         1 => s.push_str("servers:\n- url: https://api.example.com/v1/\n  description: production\n"),
         _ => s.push_str(
-            "servers:\n- url: https://api.example.com/v1\n  description: production\n- url: https://{env}.example.com:{port}/v2\n  variables:\n    env:\n      default: dev\n      enum:\n      - dev\n      - staging\n      description: environment\n    port:\n      default: '8443'\n",
+            "servers:\n- url: https://api.example.com/v1\n  description: production\n- url: https://{env}.example.com:{port}/v2\n  variables:\n    env:\n      default: dev\n      enum:\n      - dev\n      - staging\n      description: environment\n    port:\n      default: '8443'\n- url: /api/\n  x-internal: true\n",
         ),
     }
     if on(F_SECURITY) {
